@@ -21,7 +21,7 @@ BOUNDS = {
              'cleaned-away halos N_total=0); options: cleaned on/off x (A | A+B) x {pos+vel, pid, pid with unpack_bits=[lagr_idx,tagged], '
              'passthrough rvint+packedpid}; light-cone layout (single lc_pid_rv file)'
              '; also: file-list loads with superslab numbers [1,2] and [2] (superslab 0 also on disk)',
-    'thorough': 'particle file <= 3 records, cleaned file <= 2 (A only; with A+B cleaned: 2 and 1), one more 2-superslab configuration with A+B',
+    'thorough': 'particle file <= 3 records, cleaned file <= 2 (A only; with A+B cleaned: 2 and 1, or 1 and 1 for two halos), one more 2-superslab configuration with A+B',
 }
 OUTSIDE = 'decoding of the words (C04); file discovery (C03); layouts above the bound (the zipper treats halos independently given the write offsets)'
 STUBS = ['asdf.open: in-memory files', 'file discovery replaced by a fixed superslab list', 'astropy Column stores cast to the declared dtype']
@@ -241,7 +241,8 @@ def items(tier, seed):
                     pf = 1 if (tier == 'quick' and cleaned and len(ABs) == 2) else PF
                     cf = CF
                     if tier == 'thorough' and cleaned and len(ABs) == 2:
-                        pf, cf = 2, 1          # (3, 2) with both subsamples cleaned runs for more than half an hour per item
+                        # measured: (3, 2) with both subsamples cleaned runs for more than half an hour per item, (2, 1) with two halos still > 20 min
+                        pf, cf = (2, 1) if nh0 < 2 else (1, 1)
                     out.append(dict(name=f'cleaned={int(cleaned)}/{"".join(ABs)}/{mode}/halos={nh0}', slabs=[0], nh={0: nh0}, PF=pf, CF=cf,
                                     cleaned=cleaned, ABs=ABs, mode=mode))
     out.append(dict(name='cleaned=1/A/posvel/slabs=2', slabs=[0, 1], nh={0: 1, 1: 1}, PF=1, CF=1, cleaned=True, ABs=('A',), mode='posvel'))
@@ -250,7 +251,7 @@ def items(tier, seed):
     out.append(dict(name='cleaned=1/A/posvel/slabs=[1,2]', slabs=[1, 2], nh={1: 1, 2: 1}, PF=1, CF=1, cleaned=True, ABs=('A',), mode='posvel'))
     out.append(dict(name='cleaned=1/A/pid/slabs=[2]', slabs=[2], nh={2: 1}, PF=1, CF=1, cleaned=True, ABs=('A',), mode='pid'))
     if tier == 'thorough':
-        out.append(dict(name='cleaned=1/AB/posvel/slabs=2', slabs=[0, 1], nh={0: 2, 1: 1}, PF=2, CF=1, cleaned=True, ABs=('A', 'B'), mode='posvel'))
+        out.append(dict(name='cleaned=1/AB/posvel/slabs=2', slabs=[0, 1], nh={0: 1, 1: 1}, PF=2, CF=1, cleaned=True, ABs=('A', 'B'), mode='posvel'))
     for nh0 in (0, 1, 2):
         out.append(dict(name=f'lightcone/halos={nh0}', kind='lc', nh0=nh0, PF=3))
     return out
